@@ -9,13 +9,14 @@ if sh("git -C /repo status --porcelain").stdout.strip():
 only = sys.argv[1:]
 res = {}
 for d in sorted(glob.glob(V + "/seeded/C*")):
-    pid = os.path.basename(d)
-    if only and pid not in only: continue
+    name = os.path.basename(d)          # <ID> or <ID>-<k> for a further seed of the same property
+    pid = name.split("-")[0]
+    if only and pid not in only and name not in only: continue
     patch = d + "/patch.diff"
     a = sh(f"git -C /repo apply --check {patch}")
     if a.returncode != 0:
-        res[pid] = {"status": "patch-does-not-apply", "detail": a.stderr.strip()[:300]}
-        print(pid, "PATCH DOES NOT APPLY", a.stderr.strip()[:120]); continue
+        res[name] = {"status": "patch-does-not-apply", "detail": a.stderr.strip()[:300]}
+        print(name, "PATCH DOES NOT APPLY", a.stderr.strip()[:120]); continue
     sh(f"git -C /repo apply {patch}")
     try:
         r = sh(f"cd {V} && timeout 1500 python3 tools/check.py {pid} --tier quick")
@@ -25,7 +26,7 @@ for d in sorted(glob.glob(V + "/seeded/C*")):
     viol = [l for l in lines if l.startswith("VIOLATION")]
     broken = [l.strip() for l in lines if l.strip().startswith("broken:")]
     status = "caught" if r.returncode == 1 and viol else "MISSED"
-    res[pid] = {"status": status, "exit": r.returncode, "violation": viol[:1], "broken": broken}
-    print(pid, status, "|", "; ".join(b.replace("broken: ", "") for b in broken)[:200])
+    res[name] = {"status": status, "exit": r.returncode, "violation": viol[:1], "broken": broken}
+    print(name, status, "|", "; ".join(b.replace("broken: ", "") for b in broken)[:200])
 json.dump(res, open(V + "/seeded/REGRESSION.json", "w"), indent=1)
 sys.exit(0 if all(v["status"] == "caught" for v in res.values()) else 1)
